@@ -406,7 +406,17 @@ def _charfn(sh, rec):
     rng = util.rng_for(sh["seed"], ID, sh["name"])
     thorough = sh["tier"] != "quick"
     gen = spne.gen_char_func_from_level_set_via_sine_heaviside_pyst_kernel_2d if d == 2 else spne.gen_char_func_from_level_set_via_sine_heaviside_pyst_kernel_3d
-    widths = [0.125, 0.3, 1e-3, 7.7] + [float(np.round(rng.uniform(0.01, 3.0), 3)) for _ in range(6 if thorough else 1)]
+    # a fixed pool of blend widths (dyadic k/64 and short decimals; the compiled kernels are cached on disk): whether the
+    # threshold tests agree exactly AT +-width depends on how the particular width and its derived constants round
+    pool = [k / 64 for k in (1, 2, 3, 5, 8, 12, 16, 20, 25, 32, 48)] + [0.012, 0.024, 0.03, 0.05, 0.06, 0.089, 0.093, 0.097, 0.1, 0.157, 0.178,
+                                                                       0.189, 0.193, 0.2, 0.243, 0.25, 0.37, 0.5, 1.0, 2.0]
+    if thorough:
+        sub = pool
+    else:
+        off = (sh["seed"] * 7 + len(sh["name"])) % len(pool)
+        sub = [pool[(off + 3 * j) % len(pool)] for j in range(10)]
+    widths = [0.125, 0.3, 1e-3, 7.7] + [float(np.round(rng.uniform(0.01, 3.0), 3)) for _ in range(6 if thorough else 1)] + sub
+    rec.count("heaviside_blend_widths", len(widths))
     for iw, bw in enumerate(widths):
         try:
             # the random widths are handed over as real_t scalars, the fixed ones as python floats
